@@ -227,6 +227,7 @@ def detect_variants(chk):
         v = "repaired"
     chk.variants["length_drop"] = v
     chk.variants["distribute_zero_max"] = "asFound" if impl_upd("^a[0-9]*$", None, 1) == "^a([0-9]){0,}$" else "repaired"
+    chk.variants["atom_min_gt_max"] = "asFound" if isinstance(impl_upd("[ab]", 3, 1), dict) else "repaired"
 
 
 # ---- mechanism 1: conversion -----------------------------------------------------------------------------------------
@@ -507,7 +508,7 @@ def rx_strings():
 
 def regex_round(chk, drv, cases, mechanism):
     """cases: [(pattern, lo, hi)]"""
-    v = chk.variants.get("distribute_zero_max", "asFound")
+    v = {"zeroMax": chk.variants.get("distribute_zero_max", "asFound"), "atom": chk.variants.get("atom_min_gt_max", "asFound")}
     todo = []
     for p, lo, hi in cases:
         try:
